@@ -23,7 +23,7 @@ func init() {
 
 const maxParallel = 4
 
-var writeKinds = []string{"execute", "execute", "execute", "request", "request-returning"}
+var writeKinds = []string{"execute", "execute", "execute", "execute", "execute", "execute", "request", "request", "request-returning"}
 
 // genSteps builds the script of one run: bursts of tagged writes (in the
 // background, so that rounds overlap them), waits counted in upload rounds,
@@ -305,10 +305,11 @@ func judge(c *vf.Ctx, sp spec, res *runRes) {
 				for _, w := range pending {
 					maxPending = max(maxPending, w.idx)
 				}
-				if r.CurrentID != nil && r.CurrentID.Err == "" && r.Provide == "ok" {
-					how = "skipped-by-current-id"
-				} else if r.Li < maxPending {
+				if r.Li < maxPending {
+					// the provider's LastIndex is below the index of an acknowledged write
 					how = "index-not-advanced"
+				} else if r.CurrentID != nil && r.CurrentID.Err == "" && r.Provide == "ok" {
+					how = "skipped-by-current-id"
 				}
 				key := fmt.Sprintf("change-not-uploaded:%s:writes=%s", how, strings.Join(ks, "+"))
 				if prevFailed {
